@@ -167,7 +167,7 @@ func strFormat(L *LState) int {
 func strGsub(L *LState) int {
 	str := L.CheckString(1)
 	pat := L.CheckString(2)
-	L.CheckTypes(3, LTString, LTTable, LTFunction)
+	L.CheckTypes(3, LTNumber, LTString, LTTable, LTFunction)
 	repl := L.CheckAny(3)
 	limit := L.OptInt(4, -1)
 
@@ -181,6 +181,9 @@ func strGsub(L *LState) int {
 		return 2
 	}
 	switch lv := repl.(type) {
+	case LNumber:
+		// a number is a replacement string (add_value of lstrlib.c)
+		L.Push(LString(strGsubStr(L, str, lv.String(), mds)))
 	case LString:
 		L.Push(LString(strGsubStr(L, str, string(lv), mds)))
 	case *LTable:
